@@ -217,3 +217,30 @@ def sends_repl(m, body_id, seen=None):
                 res = True
     _SR[body_id] = res
     return res
+
+
+
+def startup_unit(m):
+    """(start body, block of the Databases construction, decision body, block of the flag read in it, block in the start
+    body that calls the decision body or None when they are the same).  The decision may live in a helper the start body
+    calls before it builds Databases."""
+    P = m.prog
+    out = []
+    for sb in P.user_bodies():
+        cb = [bi for bi, t in sb.calls() if callee(t).endswith('db_ops::create_init_dbs')]
+        if not cb:
+            continue
+        v = [bi for bi, t in sb.calls() if callee(t).endswith('disk_ops::is_oplog_valid')]
+        if v:
+            out.append((sb, cb[0], sb, v[0], None))
+            continue
+        for bi, t in sb.calls():
+            hb = P.bodies.get(callee(t))
+            if hb is None or t['f'].get('ind'):
+                continue
+            hv = [x for x, t2 in hb.calls() if callee(t2).endswith('disk_ops::is_oplog_valid')]
+            if hv and sb.dominates(bi, cb[0]):
+                out.append((sb, cb[0], hb, hv[0], bi))
+    if len(out) != 1:
+        raise core.AnchorError('expected one start-up unit (flag read, then Databases built), found %d' % len(out))
+    return out[0]
